@@ -1300,6 +1300,13 @@ class Sym:
                 b = self.pmatch(f[1][1][0], recv[1])
                 inner.vars.update(b)
                 return ("opt", self.ev(f[1][2], inner))
+        if recv[0] == "tagged":           # a value carrying a unit of measure (dimensioned): map_unsafe applies f to the bare value, the unit stays
+            if name == "map_unsafe" and len(args_e) == 1:
+                f = self.ev(args_e[0], env)
+                if f[0] != "closure" or len(f[1][1]) != 1: raise Unsupported("map_unsafe with something other than a one-parameter closure")
+                inner = Env(f[2]); b_ = self.pmatch(f[1][1][0], recv[1]); inner.vars.update(b_)
+                return ("tagged", self.ev(f[1][2], inner))
+            if name == "value_unsafe" and not args_e: return recv[1]
         if recv[0] == "opt" and name == "take" and not args_e:
             self.store(env, recv_e, ("opt", None))
             return recv
